@@ -1,4 +1,5 @@
 import PhreeqcVerif.Lemmas.Store
+import PhreeqcVerif.Gen.Keywords
 /-!
 C14 — numbered reactants behave as a keyed store under COPY/DELETE/SAVE/USE/MODIFY.
 
@@ -380,6 +381,41 @@ theorem run_cells_option_resolves :
     ["cells", "cell", "cel", "ce", "c"].all resolveCells = true ∧ resolveCells "s" = false := by decide
 /-- the observing `DUMP -all` selects "all" -/
 theorem dump_all_resolves : resolveOpt Gen.StoreTables.dumperVopts "all" = some Gen.StoreTables.dumperAllCase := by decide
+
+/-- DUMP: every option of `dumper::vopts` is wired, and each kind's option name selects that kind's item
+    (the same spelling as in DELETE) -/
+theorem dump_options_wired :
+    Gen.StoreTables.dumperVopts.length = Gen.StoreTables.dumperCases.length ∧
+    Gen.StoreTables.delNames.all (fun p =>
+      ((resolveOpt Gen.StoreTables.dumperVopts p.2).bind fun i => Gen.StoreTables.dumperCases[i]?) == some p.1) = true ∧
+    ((resolveOpt Gen.StoreTables.dumperVopts "cells").bind fun i => Gen.StoreTables.dumperCases[i]?) = some "cell" := by
+  decide
+
+/-- the `Keywords::KEY_…` enumerator a keyword text is looked up to (`Keywords::Keyword_search`, generated table) -/
+def keyOf (name : String) : Option String :=
+  (Gen.Keywords.table.lookup name).bind fun i => Gen.Keywords.enumNames[i]?
+
+/-- the names written after USE and COPY select, through the keyword table and the `switch` of `read_use` /
+    `read_copy`, the intended kind; the definition keywords are the same enumerators -/
+theorem use_copy_names_resolve :
+    Gen.StoreTables.useNames.all (fun p =>
+      ((keyOf p.2).bind fun k => Gen.StoreTables.useKeys.lookup k) == some p.1 &&
+      ((keyOf p.2).bind fun k => Gen.StoreTables.copyKeys.lookup k) == some p.1) = true ∧
+    Gen.StoreTables.kwNames.all (fun p =>
+      ((keyOf p.2).bind fun k => Gen.StoreTables.useKeys.lookup k) == some p.1) = true := by decide
+/-- SAVE accepts exactly the six saveable kinds, each under its own name -/
+theorem save_names_resolve :
+    Gen.StoreTables.useNames.all (fun p =>
+      match (keyOf p.2).bind fun k => Gen.StoreTables.saveKeys.lookup k with
+      | some k => k == p.1
+      | none => !(saverKinds.map (·.1.name)).contains p.1) = true := by decide
+
+/-- with the loop variable as it is in the source, COPY to any range a…b (negative numbers included) fills it -/
+theorem copy_content_eq_current (ms : Maps) (k : Kind) (src a b : Int) (e : Entry) (h : abs ms k src = some e) :
+    ∃ ts, copyTargets Gen.StoreTables.copyLoopUnsigned a b = some ts ∧ ∀ k' x,
+      abs (applySOp ms (.copyTo k src ts)) k' x =
+        if k' = k ∧ a ≤ x ∧ x ≤ b ∧ x ≠ src then some (renum e x) else abs ms k' x := by
+  rw [copy_loop_is_signed]; exact copy_content_eq ms k src a b e h
 
 end SourceTables
 
